@@ -479,6 +479,17 @@ def selftest():
                 continue
             if len(t) != 4 or t[1][3] != v:
                 bad.append(('encode/decode round trip', lit, t))
+    import random
+    rng = random.Random(19)
+    frags = ["'", '"', '\\', '{', '}', '$x', '\n', '//', '/*', '`', 'é', 'abc', ' ', '\\n', "\\'", ';', ')']
+    for _ in range(300):
+        v = ''.join(rng.choice(frags) for _ in range(rng.randint(1, 6)))
+        q = rng.choice('\'"')
+        text = 'MATCH (n {Name: ' + encode_literal(v, q) + ', X: $p}) RETURN n.Name'
+        toks, probs = check_statement(text, {'p': 1})
+        if probs or toks is None or [t[3] for t in toks if t[0] == 'str'] != [v]:
+            bad.append(('random literal round trip', text, probs))
+            break
     t0 = tokenize("MATCH (n {Name: 'abc'}) RETURN n")
     if compare_streams(t0, tokenize("MATCH (n {Name: 'a\\'b'}) RETURN n"), 'abc', "a'b") is not None:
         bad.append(('compare: escaped literal rejected',))
